@@ -3,6 +3,8 @@
 mod c04;
 mod c05;
 mod c07;
+mod c10;
+mod corpus;
 mod c19;
 mod util;
 
@@ -19,6 +21,7 @@ fn main() {
         "c04" => c04::run(&mut out, tier, seed),
         "c05" => c05::run(&mut out, tier, seed),
         "c07" => c07::run(&mut out, tier, seed),
+        "c10" => c10::run(&mut out, tier, seed),
         "c19" => c19::run(&mut out, tier, seed),
         _ => {
             eprintln!("unknown property {prop}");
